@@ -9,6 +9,9 @@
 //         S shared required, `0` = empty list (default: nt = Ab, nts = AbS; A must be required in the observed run)
 //   pre:  earlier runs of the SAME job object, unobserved, each with its own request list (typed jobs cannot
 //         change their signature: every entry is one more identical run)
+//   late=1: during the `pre` runs every archetype already exists but has no members yet (one member is created and
+//         destroyed up front); the population is created after them (a per-job cache of matching archetypes must not
+//         remember an empty archetype as "does not match")
 //   kinds of archetypes (letter k): a=<A> b=<A,B> c=<A,M1> d=<A,B,M2> e=<A,M1,M2> f=<A,B,M3>
 //                                   s=<A>+S(1) t=<A,B>+S(2) u=<A,M1>+S(1)      n=<B> m=<M1,M2> o=<B,M3> p=<M1>+S(1)
 //   job kinds: plain idx ent opt shr arr nt nts
@@ -27,6 +30,7 @@
 
 #include <cstdio>
 #include <cstring>
+#include <functional>
 #include <iostream>
 #include <map>
 #include <memory>
@@ -73,6 +77,7 @@ struct Cfg {
     std::vector<ArchSpec> archs;
     std::string nreq;                 // request list of the observed NonTemplateJob run ("" = default of the kind)
     std::vector<std::string> pre;     // request lists of earlier, unobserved runs of the same job object
+    bool late = false;                // the archetypes exist but are EMPTY during the `pre` runs; populated afterwards
 };
 
 struct WArch {               // one archetype of the world, world order
@@ -399,6 +404,7 @@ bool parseCfg(const std::string& line, Cfg& c) {
         else if (k == "mode") c.mode = v;
         else if (k == "T") c.T = (v == "-") ? -1 : std::stol(v);
         else if (k == "nreq") c.nreq = v;
+        else if (k == "late") c.late = v == "1";
         else if (k == "pre") {
             std::istringstream ps{v};
             std::string item;
@@ -446,7 +452,7 @@ void printBlocks(const J& job) {
 }
 
 template<typename J>
-void runJob(World& world, J& job, const Cfg& c) {
+void runJob(World& world, J& job, const Cfg& c, const std::function<void()>& populate) {
     auto& em = world.entities();
     auto& dispatcher = world.dispatcher();
     JobRunMode mode = c.mode == "current" ? JobRunMode::kCurrentThread : JobRunMode::kParallel;
@@ -460,6 +466,7 @@ void runJob(World& world, J& job, const Cfg& c) {
         job.run(world, mode);
         g->prior = false;
     }
+    if (c.late) populate();
     applyDesc(job, observed);
     if (g->filter == 1) {
         // baseline: the job sees everything once, then only what is marked dirty afterwards
@@ -542,6 +549,13 @@ void runCfg(const Cfg& c) {
                 return result;
             });
         }
+        if (c.late) {
+            // the archetypes exist (in configuration order), without members
+            for (size_t k = 0; k < c.archs.size(); ++k) {
+                if (c.archs[k].size > 0) em.destroyNow(createKind(em, c.archs[k].kind));
+            }
+        }
+        const auto populate = [&]() {
         // entities, archetype by archetype in configuration order
         std::vector<std::vector<Entity> > created(c.archs.size());
         for (size_t k = 0; k < c.archs.size(); ++k) {
@@ -599,13 +613,15 @@ void runCfg(const Cfg& c) {
             std::printf("W %zu %c %u %u %u %s %d\n", wi, w.kind, w.size, w.cs, cap,
                         w.pattern.empty() ? "-" : w.pattern.c_str(), w.excl ? 1 : 0);
         }
-        if (c.job == "plain") { JPlain j; runJob(world, j, c); }
-        else if (c.job == "idx") { JIdx j; runJob(world, j, c); }
-        else if (c.job == "ent") { JEnt j; runJob(world, j, c); }
-        else if (c.job == "opt") { JOpt j; runJob(world, j, c); }
-        else if (c.job == "shr") { JShr j; runJob(world, j, c); }
-        else if (c.job == "arr") { JArr j; runJob(world, j, c); }
-        else if (c.job == "nt" || c.job == "nts") { NTJ j; runJob(world, j, c); }
+        };
+        if (!c.late) populate();
+        if (c.job == "plain") { JPlain j; runJob(world, j, c, populate); }
+        else if (c.job == "idx") { JIdx j; runJob(world, j, c, populate); }
+        else if (c.job == "ent") { JEnt j; runJob(world, j, c, populate); }
+        else if (c.job == "opt") { JOpt j; runJob(world, j, c, populate); }
+        else if (c.job == "shr") { JShr j; runJob(world, j, c, populate); }
+        else if (c.job == "arr") { JArr j; runJob(world, j, c, populate); }
+        else if (c.job == "nt" || c.job == "nts") { NTJ j; runJob(world, j, c, populate); }
         else ctl.error("unknown job kind " + c.job);
     }
     for (const auto& e : ctl.errors) std::printf("E %s\n", e.c_str());
